@@ -74,6 +74,21 @@ pub fn replay(path: &str) -> i32 {
     };
     let id = doc["property"].as_str().unwrap_or("");
     let model = doc["model"].as_str().unwrap_or("");
+    // a violation seen only by the checked-profile binary is replayed by that binary
+    let model = match model.strip_suffix(crate::engine::CHECKED_SUFFIX) {
+        Some(m) if !cfg!(debug_assertions) => {
+            let bin = std::env::current_exe().ok().and_then(|p| p.parent().and_then(|d| d.parent()).map(|d| d.join("checked").join("blsful-mc")));
+            return match bin.map(|b| std::process::Command::new(b).arg("replay").arg(path).status()) {
+                Some(Ok(s)) => s.code().unwrap_or(2),
+                _ => {
+                    eprintln!("cannot run the checked-profile binary for the replay of {}", m);
+                    2
+                }
+            };
+        }
+        Some(m) => m,
+        None => model,
+    };
     let seed = doc["seed"].as_u64().unwrap_or(1);
     let tier = if doc["tier"].as_str() == Some("thorough") { Tier::Thorough } else { Tier::Quick };
     let state = doc["state"].to_string();
